@@ -6,8 +6,8 @@ package main
 import (
 	"fmt"
 	"go/token"
-	"regexp"
 	"go/types"
+	"regexp"
 	"sort"
 	"strings"
 
